@@ -53,3 +53,134 @@ Proof.
   - apply alloc_allocs. lia.
   - intros [] l _. apply k_comp_allocs_bound. lia.
 Qed.
+
+(* ================= no panic / fuel / small requests for the main header ================= *)
+Definition KB : Z := 262144.
+
+Lemma k_rd8_good : forall g d o, bytes d -> 0 <= o ->
+  good g KB (fun x => snd x = o + 1 /\ 0 <= fst x < 256) (k_rd8 d o).
+Proof.
+  intros. unfold k_rd8. destruct (zlen d <? o + 1); [apply good_err|].
+  apply good_ret. cbn [fst snd]. split; [reflexivity|apply bytes_znth; auto].
+Qed.
+Lemma k_rd16_good : forall g d o, bytes d -> 0 <= o ->
+  good g KB (fun x => snd x = o + 2 /\ 0 <= fst x <= 65535) (k_rd16 d o).
+Proof.
+  intros. unfold k_rd16. destruct (zlen d <? o + 2); [apply good_err|].
+  apply good_ret. cbn [fst snd]. split; [reflexivity|].
+  pose proof (bytes_znth d o H). pose proof (bytes_znth d (o + 1) H). lia.
+Qed.
+Lemma k_rd32_good : forall g d o, bytes d -> 0 <= o ->
+  good g KB (fun x => snd x = o + 4 /\ 0 <= fst x < 4294967296) (k_rd32 d o).
+Proof.
+  intros. unfold k_rd32. destruct (zlen d <? o + 4); [apply good_err|].
+  apply good_ret. cbn [fst snd]. split; [reflexivity|].
+  pose proof (bytes_znth d o H). pose proof (bytes_znth d (o + 1) H).
+  pose proof (bytes_znth d (o + 2) H). pose proof (bytes_znth d (o + 3) H). lia.
+Qed.
+Lemma k_read_buf_good : forall g d o n, 0 <= n <= 65535 ->
+  good g KB (fun o' => o' = o + n) (k_read_buf d o n).
+Proof.
+  intros. unfold k_read_buf.
+  eapply good_bind; [apply good_alloc with (post := fun _ => True); [lia|rewrite maxAlloc_val; lia|unfold KB; lia|exact I]|].
+  intros _ _. destruct (zlen d <? o + n); [apply good_err|apply good_ret; reflexivity].
+Qed.
+Lemma k_rd_bytes_good : forall g d k o, bytes d -> 0 <= o -> good g KB (fun o' => o <= o') (k_rd_bytes d k o).
+Proof.
+  intros g d k. induction k as [|k IH]; intros o Hb Ho; cbn [k_rd_bytes]; [apply good_ret; lia|].
+  eapply good_bind; [apply k_rd8_good; auto|]. intros [v o1] (E & _). cbn [fst snd] in *. subst o1.
+  eapply good_weaken; [apply IH; [auto|lia]|lia|]. cbv beta; intros; lia.
+Qed.
+Lemma k_rd_comp_good : forall g cs d o, bytes d -> 0 <= o ->
+  good g KB (fun x => o <= snd x /\ 0 <= fst x <= 65535) (k_rd_comp cs d o).
+Proof.
+  intros. unfold k_rd_comp. destruct (comp_bytes cs =? 2).
+  - eapply good_weaken; [apply k_rd16_good; auto|lia|]. cbv beta. intros a (E & R). lia.
+  - eapply good_weaken; [apply k_rd8_good; auto|lia|]. cbv beta. intros a (E & R). lia.
+Qed.
+Lemma comp_bytes_range : forall cs, 1 <= comp_bytes cs <= 2.
+Proof. intros. unfold comp_bytes. destruct (256 <? cs); lia. Qed.
+
+Ltac rd8 v o E := eapply good_bind; [apply k_rd8_good; [assumption|lia]|]; intros [v o] (E & ?); cbn [fst snd] in *; subst o.
+Ltac rd16 v o E := eapply good_bind; [apply k_rd16_good; [assumption|lia]|]; intros [v o] (E & ?); cbn [fst snd] in *; subst o.
+Ltac rd32 v o E := eapply good_bind; [apply k_rd32_good; [assumption|lia]|]; intros [v o] (E & ?); cbn [fst snd] in *; subst o.
+
+Lemma k_skip_good : forall g d o, bytes d -> 0 <= o -> good g KB (fun o' => o <= o') (k_skip_segment d o).
+Proof.
+  intros. unfold k_skip_segment. rd16 l o1 E.
+  destruct (zlen d <? o + 2 + (l - 2)); [apply good_err|apply good_ret; lia].
+Qed.
+
+Lemma k_siz_comps_good : forall g d k o, bytes d -> 0 <= o -> good g KB (fun o' => o <= o') (k_siz_comps d k o).
+Proof.
+  intros g d k. induction k as [|k IH]; intros o Hb Ho; cbn [k_siz_comps]; [apply good_ret; lia|].
+  rd8 a o1 E1. rd8 b o2 E2. rd8 c o3 E3.
+  eapply good_weaken; [apply IH; [auto|lia]|lia|]. cbv beta; intros; lia.
+Qed.
+
+Lemma k_parse_siz_good : forall g d o, bytes d -> 0 <= o ->
+  good g KB (fun x => o <= snd x /\ 0 <= s_c (fst x) <= 65535) (k_parse_siz d o).
+Proof.
+  intros. unfold k_parse_siz.
+  rd16 len o1 E1. rd16 rs o2 E2. rd32 x o3 E3. rd32 y o4 E4. rd32 xo o5 E5. rd32 yo o6 E6.
+  rd32 xt o7 E7. rd32 yt o8 E8. rd32 xto o9 E9. rd32 yto o10 E10. rd16 cs o11 E11.
+  eapply good_bind; [apply good_alloc with (post := fun _ => True); [lia|rewrite maxAlloc_val; lia|unfold KB; lia|exact I]|].
+  intros _ _.
+  eapply good_bind; [apply k_siz_comps_good; [auto|lia]|]. intros o12 Ho12. cbv beta in Ho12.
+  destruct (negb (len =? 38 + 3 * cs)); [apply good_err|].
+  apply good_ret. cbn [fst snd s_c]. lia.
+Qed.
+
+Lemma k_coding_style_good : forall g d sc o, bytes d -> 0 <= o -> good g KB (fun o' => o <= o') (k_coding_style d sc o).
+Proof.
+  intros. unfold k_coding_style.
+  rd8 nl o1 E1. rd8 a o2 E2. rd8 b o3 E3. rd8 c o4 E4. rd8 t o5 E5.
+  destruct (Z.odd sc); [|apply good_ret; lia].
+  eapply good_bind; [apply good_alloc with (post := fun _ => True); [lia|rewrite maxAlloc_val; lia|unfold KB; lia|exact I]|].
+  intros _ _. eapply good_weaken; [apply k_rd_bytes_good; [auto|lia]|lia|]. cbv beta; intros; lia.
+Qed.
+
+Lemma k_len_fix_good : forall g len start o, 0 <= len -> start <= o ->
+  good g KB (fun o' => start + len - 2 <= o' /\ o <= o') (k_len_fix len start o).
+Proof.
+  intros. unfold k_len_fix. destruct (Z.ltb_spec (len - 2) (o - start)); [apply good_err|].
+  apply good_ret. lia.
+Qed.
+
+Lemma k_parse_cod_good : forall g d o, bytes d -> 0 <= o -> good g KB (fun o' => o <= o') (k_parse_cod d o).
+Proof.
+  intros. unfold k_parse_cod.
+  rd16 len o1 E1. rd8 sc o2 E2. rd8 pr o3 E3. rd16 ly o4 E4. rd8 mc o5 E5.
+  eapply good_bind; [apply k_coding_style_good; [auto|lia]|]. intros o6 Ho6. cbv beta in Ho6.
+  eapply good_weaken; [apply k_len_fix_good; lia|lia|]. cbv beta; intros; lia.
+Qed.
+
+Lemma k_parse_coc_good : forall g cs d o, bytes d -> 0 <= o ->
+  good g KB (fun x => o <= snd x) (k_parse_coc cs d o).
+Proof.
+  intros. unfold k_parse_coc.
+  rd16 len o1 E1.
+  eapply good_bind; [apply k_rd_comp_good; [auto|lia]|]. intros [cp o2] (Ho2 & _). cbn [fst snd] in *.
+  rd8 sc o3 E3.
+  eapply good_bind; [apply k_coding_style_good; [auto|lia]|]. intros o4 Ho4. cbv beta in Ho4.
+  eapply good_bind; [apply k_len_fix_good; lia|]. intros o5 (Ho5 & Ho5'). cbv beta in *.
+  apply good_ret. cbn [snd]. lia.
+Qed.
+
+Lemma k_parse_qcd_good : forall g d o, bytes d -> 0 <= o -> good g KB (fun o' => o <= o') (k_parse_qcd g d o).
+Proof.
+  intros. unfold k_parse_qcd. rd16 len o1 E1. rd8 sq o2 E2.
+  destruct g; cbn [andb].
+  - destruct (Z.ltb_spec len 3); [apply good_err|].
+    eapply good_weaken; [apply k_read_buf_good; lia|lia|]. cbv beta; intros; lia.
+  - (* code as it stands: make([]byte, len-3) may panic; nothing to show for g = false but fuel and sizes *)
+    unfold k_read_buf, alloc.
+    destruct ((len - 3 <? 0) || (maxAlloc <? (len - 3) * 1)) eqn:Ea.
+    + unfold bind; cbn [fst snd]. unfold good; cbn [fst snd]. split; [discriminate|]. split; [discriminate|].
+      split; [repeat constructor; unfold KB; lia|intros; discriminate].
+    + unfold bind; cbn [fst snd]. apply orb_false_iff in Ea. destruct Ea as [Ea _]. apply Z.ltb_ge in Ea.
+      destruct (zlen d <? o + 2 + 1 + (len - 3)); unfold good, err, ret; cbn [fst snd].
+      * split; [discriminate|]. split; [discriminate|]. split; [repeat constructor; unfold KB; lia|intros; discriminate].
+      * split; [discriminate|]. split; [discriminate|]. split; [repeat constructor; unfold KB; lia|].
+        intros a Ha. inversion Ha; subst. lia.
+Qed.
